@@ -33,8 +33,18 @@ def main():
     out.append("### 0.4 Independently written property-breaking changes (`/verif/seeded/`) and the checks that catch them\n")
     out.append("Each change was written by a fresh sub-agent that saw only the property text and a scratch worktree; each was confirmed here "
                "(tests unchanged, demo fails with / passes without) by `tools/verify_seed.sh`.\n")
-    out.append("| seed | what it changes | needs | caught by |")
-    out.append("|---|---|---|---|")
+    out.append("`proof part alone`: verdict of the deductive part by itself (`--no-rac`) on the changed tree -- `violation` = a named obligation fails; "
+               "`stale` = the change leaves the modelled subset or moves an anchor (undecided by policy, the run-time contracts decide); `held` = the "
+               "changed function is not under contract for this property.\n")
+    tally = {}
+    for d in sorted(glob.glob(os.path.join(ROOT, "seeded", "*"))):
+        mp = os.path.join(d, "meta.json")
+        if os.path.exists(mp):
+            v = json.load(open(mp)).get("proof_only", {}).get("verdict", "not run")
+            tally[v] = tally.get(v, 0) + 1
+    out.append("Totals over all seeds, proof part alone: " + ", ".join(f"{k}: {v}" for k, v in sorted(tally.items())) + ".\n")
+    out.append("| seed | what it changes | needs | caught by | proof part alone |")
+    out.append("|---|---|---|---|---|")
     for d in sorted(glob.glob(os.path.join(ROOT, "seeded", "*"))):
         mp = os.path.join(d, "meta.json")
         if not os.path.exists(mp):
@@ -43,7 +53,7 @@ def main():
         rep = (m.get("first_report") or [""])
         how = next((r for r in rep if r.startswith("# ")), "")[2:140]
         out.append(f"| {os.path.basename(d)} | {str(m.get('summary', ''))[:160]} | {str(m.get('needs', ''))[:140]} | "
-                   f"{', '.join(m.get('caught_by', [])) or '**missed**'} — {how} |")
+                   f"{', '.join(m.get('caught_by', [])) or '**missed**'} — {how} | {m.get('proof_only', {}).get('verdict', '')} |")
     out.append("")
     rp = os.path.join(ROOT, "mutants", "RESULTS.json")
     if os.path.exists(rp):
